@@ -171,38 +171,50 @@ Definition category_localized (contact_lang : lang) (allowed : list lang) (base 
 (* ---- the other senders of localized text: send_email, say_msg, play_audio (flows/actions/send_email.go,
    say_msg.go, play_audio.go).  Each resolves its properties with GetText (get_text1). -------------------- *)
 
-(* SendEmailAction.Execute: subject and body; the email is skipped (error event) when either is empty *)
+(* SendEmailAction.Execute: subject and body, each localized and then evaluated ([ev_s] also collapses whitespace);
+   the email is skipped (error event) when either is empty as evaluated *)
+Definition send_email_texts_gen (ev_s ev_b : text -> text) (contact_lang : lang) (allowed : list lang) (base : lang)
+           (subject body : text) (tr_subject tr_body : translations) : option (text * text) :=
+  let s := ev_s (fst (get_text1 contact_lang allowed base subject tr_subject)) in
+  let b := ev_b (fst (get_text1 contact_lang allowed base body tr_body)) in
+  if text_empty s || text_empty b then None else Some (s, b).
+
 Definition send_email_texts (contact_lang : lang) (allowed : list lang) (base : lang)
            (subject body : text) (tr_subject tr_body : translations) : option (text * text) :=
-  let s := fst (get_text1 contact_lang allowed base subject tr_subject) in
-  let b := fst (get_text1 contact_lang allowed base body tr_body) in
-  if text_empty s || text_empty b then None else Some (s, b).
+  send_email_texts_gen (fun t => t) (fun t => t) contact_lang allowed base subject body tr_subject tr_body.
 
 (* an IVR message: text, audio URL ("" = no attachment), language reported in its locale *)
 Record ivr_out := { i_text : text; i_audio : text; i_lang : lang }.
 
-(* SayMsgAction.Execute: text and audio URL resolved separately; the text is evaluated ([ev_text]); skipped when both
-   are empty; the locale names the language of the TEXT, and for a message without text the language of its audio
+(* SayMsgAction.Execute: text and audio URL resolved separately; the text is evaluated ([ev_text]); the audio URL
+   becomes an attachment, so one that is too long for an attachment is dropped ([keep] gives "" for it); skipped when
+   both are empty; the locale names the language of the TEXT, and for a message without text the language of its audio
    URL (its only attachment) *)
-Definition say_msg_out_gen (ev_text : text -> text) (contact_lang : lang) (allowed : list lang) (base : lang)
+Definition say_msg_out_gen (ev_text keep : text -> text) (contact_lang : lang) (allowed : list lang) (base : lang)
            (txt audio : text) (tr_txt tr_audio : translations) : option ivr_out :=
   let '(t0, tl) := get_text1 contact_lang allowed base txt tr_txt in
   let t := ev_text t0 in
-  let '(a, al) := get_text1 contact_lang allowed base audio tr_audio in
+  let '(a0, al) := get_text1 contact_lang allowed base audio tr_audio in
+  let a := keep a0 in
   if text_empty t && text_empty a then None
   else Some {| i_text := t; i_audio := a; i_lang := if text_empty t then al else tl |}.
 
 Definition say_msg_out (contact_lang : lang) (allowed : list lang) (base : lang)
            (txt audio : text) (tr_txt tr_audio : translations) : option ivr_out :=
-  say_msg_out_gen (fun t => t) contact_lang allowed base txt audio tr_txt tr_audio.
+  say_msg_out_gen (fun t => t) (fun a => a) contact_lang allowed base txt audio tr_txt tr_audio.
 
-(* PlayAudioAction.Execute: a text-less message; skipped when the URL is empty; the locale names the language of the
-   audio URL (the message's only attachment) *)
-Definition play_audio_out (contact_lang : lang) (allowed : list lang) (base : lang)
+(* PlayAudioAction.Execute: a text-less message; the URL is evaluated ([ev]; an evaluation error gives "") and must
+   fit into an attachment ([keep]); skipped when it is empty after that; the locale names the language of the audio
+   URL (the message's only attachment) *)
+Definition play_audio_out_gen (ev keep : text -> text) (contact_lang : lang) (allowed : list lang) (base : lang)
            (audio : text) (tr_audio : translations) : option ivr_out :=
-  let '(a, al) := get_text1 contact_lang allowed base audio tr_audio in
+  let '(a0, al) := get_text1 contact_lang allowed base audio tr_audio in
+  let a := keep (ev a0) in
   if text_empty a then None else Some {| i_text := []; i_audio := a; i_lang := al |}.
 
+Definition play_audio_out (contact_lang : lang) (allowed : list lang) (base : lang)
+           (audio : text) (tr_audio : translations) : option ivr_out :=
+  play_audio_out_gen (fun t => t) (fun a => a) contact_lang allowed base audio tr_audio.
 
 (* ---- send_msg built from a channel template: its variables are a localized item property like any other
    (flows/actions/send_msg.go); the templating pads/cuts them to the number of variables of the template
@@ -213,9 +225,13 @@ Fixpoint pad_to (n : nat) (l : list text) : list text :=
   | S n' => match l with [] => [] :: pad_to n' [] | x :: l' => x :: pad_to n' l' end
   end.
 
+Definition template_variables_gen (ev : text -> text) (contact_lang : lang) (allowed : list lang) (base : lang)
+           (nvars : nat) (vars : list text) (tr : translations) : list text :=
+  pad_to nvars (map ev (fst (get_text contact_lang allowed base vars tr))).
+
 Definition template_variables (contact_lang : lang) (allowed : list lang) (base : lang)
            (nvars : nat) (vars : list text) (tr : translations) : list text :=
-  pad_to nvars (fst (get_text contact_lang allowed base vars tr)).
+  template_variables_gen (fun t => t) contact_lang allowed base nvars vars tr.
 
 (* ---- BroadcastTranslations.ForContact (flows/msg.go): what a host gets for one recipient out of the contents of a
    broadcast_created event: the recipient's language if allowed, the environment default, the base language; the
